@@ -12,7 +12,7 @@ SPEC = dict(
                 "handshake record: flip; truncate / extend with and without corrected length field; drop; duplicate; exchange with the "
                 "same frame of a second concurrent session; re-pair two sessions; replay frames of an earlier session), or a Byzantine "
                 "peer (flynn/noise resp. crypto/tls driven directly) presents a forged credential (identity key / signature / "
-                "certificate key substituted, credential of another session, extension absent / duplicated, chain length 0 / 2), or the "
+                "certificate key substituted, credential of another session, byte-identical copy of a credential the victim has just verified in a real handshake with its owner, extension absent / duplicated, chain length 0 / 2), or the "
                 "configuration itself mismatches (expected peer, prologue) - crossed with 4x4 identity key types, both roles, "
                 "expected-peer settings, prologue pairings. Positions and key pairs are drawn per run (sampling with replacement): "
                 "quick visits each (message, position, sender key type) a few times at most, thorough ~20-30 times in expectation; "
@@ -40,6 +40,7 @@ SPEC = dict(
             "peer-id-mismatch-tls-responder", "prologue-mismatch-refused", "altered-ends-in-timeout",
             "sender-completes-while-receiver-refuses", "rerouted-session-completes-with-true-identity", "early-data-delivered",
             "forged-credential-refused-noise", "forged-credential-refused-tls", "byzantine-control-accepted",
+            "credential-verified-before-replay-tls", "credential-verified-before-replay-noise",
             "edit-noise-I>R#0", "edit-noise-R>I#0", "edit-noise-I>R#1",
             "edit-tls-I>R#0", "edit-tls-I>R#1", "edit-tls-I>R#2", "edit-tls-I>R#3",
             "edit-tls-R>I#0", "edit-tls-R>I#1", "edit-tls-R>I#2", "edit-tls-R>I#3", "edit-tls-R>I#4", "edit-tls-R>I#5",
